@@ -247,6 +247,9 @@ b("tg-build-with-ccont-copy-vtbl", TG,
 b("verify-and-flat-match", TG,
   "        match self {\n            VerifyLayout::Valid => other,\n            VerifyLayout::Invalid => self,\n            _ => match other {\n                VerifyLayout::Valid => self,\n                _ => other,\n            },\n        }",
   "        match (self, other) {\n            (VerifyLayout::Invalid, _) | (_, VerifyLayout::Invalid) => VerifyLayout::Invalid,\n            (VerifyLayout::Unknown, _) | (_, VerifyLayout::Unknown) => VerifyLayout::Unknown,\n            (VerifyLayout::Valid, VerifyLayout::Valid) => VerifyLayout::Valid,\n        }", ["C20"])
+b("verify-and-binding-tuple-match", TG,
+  "        match self {\n            VerifyLayout::Valid => other,\n            VerifyLayout::Invalid => self,\n            _ => match other {\n                VerifyLayout::Valid => self,\n                _ => other,\n            },\n        }",
+  "        match (self, other) {\n            (VerifyLayout::Invalid, _) | (_, VerifyLayout::Invalid) => VerifyLayout::Invalid,\n            (VerifyLayout::Valid, other) => other,\n            (this, _) => this,\n        }", ["C20"])
 b("verify-relaxed-not-invalid", TG,
   "        matches!(self, VerifyLayout::Valid | VerifyLayout::Unknown)",
   "        !matches!(self, VerifyLayout::Invalid)", ["C20"])
